@@ -19,6 +19,7 @@
 
 from datetime import datetime
 import os
+import re
 import time
 
 from .data import (Calendar, TimePoint,
@@ -268,7 +269,13 @@ class DateTimeOperator(object):
 
     def get_datetime_strptime(self, time_point_str, parse_format):
         """Use the datetime library's strptime as a fallback."""
-        _time = time.strptime(time_point_str, parse_format)
+        try:
+            _time = time.strptime(time_point_str, parse_format)
+        except re.error as exc:
+            # e.g. a directive given twice: time.strptime lets the error of
+            # the regular expression it builds from the format escape
+            raise ValueError(
+                "Invalid parse format: %s: %s" % (parse_format, exc))
         # NOTE: Neither time.strptime nor datetime.datetime.strptime can
         # cope with %Z (time zone) that isn't 'UTC' or 'GMT'. There is no
         # way to differentiate between an unrecognised zone (e.g. CET) and
